@@ -140,7 +140,7 @@ def body(c):
     c.assumptions += ["spec -> impl cases are Core-family programs; jets appear as leaves with their Display names",
                       "identity of objects in Human.tla = (combinator, payload, arrow, identities of children), which is what the IHR hashes; witness / disconnect and everything above them have none",
                       "source texts are single-program texts (one root, main) in which every witness and disconnect is reached along one path -- the parser rejects the others by design (WitnessDisconnectRepeated)",
-                      "parser time/allocation bounds: 2 s + 1 ms/byte, 4 MiB + 64 KiB/byte"]
+                      "parser time/allocation bounds: 10 s + 1 ms/byte (wall clock on a loaded machine; a hang, not slowness, is what the bound is for), 4 MiB + 64 KiB/byte"]
     c.finish_kw = dict(exhaustive=True, rule=(
         "TLC: every well-typed program of <= %d objects over 14 combinators x every naming (inline / n<i> / namer-shaped ut<i>, cp<i>): "
         "names distinct, parse(tokens(render)) = forest, and each of the five pinned deviations fails exactly in its scope; every type of depth <= 2: "
